@@ -428,8 +428,7 @@ def check_ict(ctx, repo, rule):
             return None
         guards = []
         for n in walk_local(f.node):
-            if isinstance(n, ast.If) and isinstance(n.test, ast.Compare) and len(n.test.ops) == 1 and any(
-                    isinstance(x, ast.Name) and x.id in ('upper', 'lower', 'ict') for x in ast.walk(n.test)):
+            if isinstance(n, ast.If) and isinstance(n.test, ast.Compare) and len(n.test.ops) == 1:
                 t = n.test
                 try:
                     l = poly_of(t.left, atom=at, resolve=fa.resolve)
@@ -437,6 +436,8 @@ def check_ict(ctx, repo, rule):
                 except NotPoly:
                     continue
                 d = l - r
+                if not d.atoms() or not d.atoms() <= {'upper', 'lower'}:
+                    continue                    # a test about something else than the row range of the interval
                 op = t.ops[0]
                 # normalise to E >= 0 over the integers
                 if isinstance(op, ast.Gt):
